@@ -298,6 +298,36 @@ theorem filter_gRemovals (p : Str → Bool) (L : List ε)
       have := ih hr l
       simpa [gRemovals] using this
 
+theorem mem_gRemovals {l : List α} (L : List ε) {x : α} (h : x ∈ gRemovals key rawKey l L) : x ∈ l := by
+  induction L generalizing l with
+  | nil => exact h
+  | cons e r ih =>
+    simp only [gRemovals, List.foldl_cons] at h
+    by_cases hm : isMarked (rawKey e) = true
+    · simp only [hm, if_true] at h
+      exact mem_removeFirst key (ih h)
+    · simp only [hm] at h; exact ih h
+
+theorem mem_gSets {l : List α} (L : List ε) {x : α} (h : x ∈ gSets key rawKey conv l L) :
+    x ∈ l ∨ ∃ e ∈ L, isMarked (rawKey e) = false ∧ x = conv e := by
+  induction L generalizing l with
+  | nil => exact Or.inl h
+  | cons e r ih =>
+    simp only [gSets, List.foldl_cons] at h
+    by_cases hm : isMarked (rawKey e) = true
+    · simp only [hm, if_true] at h
+      rcases ih h with h | ⟨e', he', h2⟩
+      · exact Or.inl h
+      · exact Or.inr ⟨e', List.mem_cons_of_mem _ he', h2⟩
+    · have hm' : isMarked (rawKey e) = false := by simpa using hm
+      simp only [hm', Bool.false_eq_true, if_false] at h
+      rcases ih h with h | ⟨e', he', h2⟩
+      · rcases List.mem_append.mp h with h | h
+        · exact Or.inl (mem_removeFirst key h)
+        · simp only [List.mem_singleton] at h
+          exact Or.inr ⟨e, by simp, hm', h⟩
+      · exact Or.inr ⟨e', List.mem_cons_of_mem _ he', h2⟩
+
 include hconv in
 theorem nodup_gSets_step {l : List α} {e : ε} (hm : isMarked (rawKey e) = false) (h : NodupKeys key l) :
     NodupKeys key (removeFirst key (rawKey e) l ++ [conv e]) := by
